@@ -36,6 +36,7 @@ func runC17(c *Ctx) {
 	ruleRecoveryVisitsAll(c, "C17.12")
 	ruleNoLoopVarCapture(c, "C17.13", "storage", "engine")
 	ruleReplayUnconditional(c, "C17.14")
+	ruleListEveryDB(c, "C17.15")
 }
 
 func c17Paths(c *Ctx, rule string) {
